@@ -499,6 +499,11 @@ var bufExtAlias = map[string][]int{
 	"net/url.ParseQuery":                          {0},
 	"reflect.ValueOf":                             {0},
 	"strings.TrimSpace":                           {0},
+	// a pipe without filters (and the integrity filter) returns (a sub-slice of) its input
+	"(*" + Root + "/xfer.XferPipe).OnUnpack": {1},
+	"(*" + Root + "/xfer.XferPipe).OnPack":   {1},
+	"bytes.SplitN":                           {0},
+	"bytes.Split":                            {0},
 	"bytes.TrimSpace":                             {0},
 }
 
